@@ -38,6 +38,27 @@ def replay_one(task):
     return classify_check_schema(d, S)
 
 
+def _after_derivation(tasks):
+    """in a fresh process: derive a registered dialect from every draft class (extend(version=...) re-binds the draft's
+    metaschema id to the new class), give it a much laxer metaschema with the same id, then ask the ORIGINAL classes"""
+    import copy
+    import jsonschema
+    from jsonschema import validators
+    for d, cls in _cls().items():
+        derived = validators.extend(cls, validators={"x-lax": lambda *a: iter(())}, version="verif-lax-%d" % d)
+        lax = {k: copy.deepcopy(v) for k, v in cls.META_SCHEMA.items() if k in ("id", "$id", "$schema", "type")}
+        derived.META_SCHEMA = lax
+        derived.check_schema({"properties": {"a": {"minLength": "three"}}})       # the dialect itself is in use
+    return [classify_check_schema(d, S) for d, S, acc in tasks]
+
+
+def after_derivation(tasks):
+    import multiprocessing
+    from concurrent.futures import ProcessPoolExecutor
+    with ProcessPoolExecutor(max_workers=1, mp_context=multiprocessing.get_context("spawn")) as ex:
+        return ex.submit(_after_derivation, tasks).result()
+
+
 def mutate_shapes(rng, S, n):
     """replace/insert shape values at random positions of a JSON tree"""
     import copy
@@ -87,7 +108,8 @@ def main(args):
                "non-object candidates; thorough: pairs inside families and the full shape pool); TLC evaluates the bundled "
                "metaschema (as found in the working tree) on each candidate with the draft's own semantics and exports "
                "the acceptance bit, replayed into check_schema. Plus random deep schemas with 1-3 shape mutations at "
-               "random depths, judged by TLC (Trace_Outcome). Non-trivial: candidate is an object with a keyword of the "
+               "random depths, judged by TLC (Trace_Outcome); nested universe candidates are asked again, in a fresh process, "
+               "after a laxer dialect has been derived from each class and registered under the same metaschema id. Non-trivial: candidate is an object with a keyword of the "
                "draft; distinct by (draft, candidate).")
     wd = tlc.workdir("c11lib")
     lib = calibrate.write_lib(wd + "/lib.json")
@@ -121,6 +143,19 @@ def main(args):
             ck.sample(case)
     ck.notes["universe_candidates_accepted"] = nacc
     ck.exhaustive = True
+    # the verdict is the class's own bundled metaschema's, whatever dialects have been derived and registered since:
+    # nested candidates (judged through the metaschema's "$ref": "#") asked again after such derivations
+    nested = [t for t in tasks if isinstance(t[1], dict) and any(isinstance(v, (dict, list)) and v for v in t[1].values())]
+    ck.rng.shuffle(nested)
+    nested = nested[:4000 if quick else 60000]
+    for (d, S, acc), (out, info) in zip(nested, after_derivation(nested)):
+        ck.count((d, repr(S), "after-derivation"), True)
+        if out == "other" or (out == "ok") != bool(acc):
+            ck.violation("accept_mismatch_after_derivation", {
+                "draft": d, "candidate": S, "metaschema_accepts(spec)": acc, "check_schema": out, "detail": info,
+                "history": "extend(DraftNValidator, version=...) registered under the draft's metaschema id, its META_SCHEMA "
+                           "replaced by a lax one with the same id; then DraftNValidator.check_schema(candidate)"})
+    ck.notes["asked_again_after_derivation"] = len(nested)
     # each bundled metaschema is accepted by its own class
     for d in DRAFTS:
         out, info = classify_check_schema(d, _cls()[d].META_SCHEMA)
